@@ -710,11 +710,22 @@ def chain_intact(b, v):
 
 def mon_C05(blocks):
     out = []
+    replaced_at = {}   # replaced id -> (instant of the call that replaced it, grace period configured then, epoch)
 
     def visit(b, g, ctx):
         a = b.ann
         k = b.tok[0]
         cfg = a.cfg
+        # the clean-up of a replaced id does not run before its grace period is over (the period configured when it was replaced)
+        for e in b.evs:
+            if e[0] == "save" and e[-1] != "fail" and any(t.startswith("rf=") and t != "rf=-" for t in e[2:]):
+                replaced_at.setdefault(_unq(e[1]), (b.t, cfg["grace"], a.epoch))
+        for tb, idv in b.bg:
+            if idv in replaced_at:
+                t0, gr, ep = replaced_at[idv]
+                if ep == a.epoch and 0 <= gr < MAXI and int(tb) < t0 + gr:
+                    out.append(Violation(b.idx, "the clean-up deleted replaced id %s %d after its replacement, before its grace period (%d) was over" % (
+                        idv, int(tb) - t0, gr)))
         # clean-up in a running process: a replaced id is gone once its grace period has passed
         if k in ("req", "wait", "h", "purge", "logoutuser", "refresh") and cfg["grace"] != MAXI:
             for idv, (t0, ep, _) in g.replaced.items():
